@@ -329,9 +329,26 @@ impl Mk for f64 {
     }
 }
 
-const PATTERNS: [&str; 6] = ["random", "constant", "step_up_down", "bursts", "decay", "alternating"];
+const PATTERNS: [&str; 8] = ["random", "constant", "step_up_down", "bursts", "decay", "alternating", "loud_quiet_silence_short", "loud_quiet_silence_long"];
+/// "loud, quiet, digital silence, quiet": one loud frame, then frames ~2^15 times smaller (their
+/// squares vanish in the rounding of a running sum that still holds the loud square), then
+/// exactly-zero frames, then quiet input again - with period `p`, quiet run `q`, silent run `z`
+fn loud_quiet_silence(i: usize, p: usize, q: usize, z: usize) -> f64 {
+    let k = i % p;
+    if k == 0 {
+        0.9
+    } else if k <= q {
+        2e-5 * (1.0 + (k % 3) as f64 / 8.0)
+    } else if k <= q + z {
+        0.0
+    } else {
+        5e-5
+    }
+}
 fn amp(p: &str, i: usize, n: usize, rng: &mut Rng) -> f64 {
     match p {
+        "loud_quiet_silence_short" => loud_quiet_silence(i, 16, 6, 3),
+        "loud_quiet_silence_long" => loud_quiet_silence(i, 220, 80, 10),
         "random" => rng.f64_in(-0.99, 0.99),
         "constant" => 0.61,
         "step_up_down" => {
@@ -415,9 +432,11 @@ where
         0 => run_env::<F, _>(&mut cx, &|| dasp_envelope::detect::Peak::full_wave(), &frames, &sched, constant, via),
         1 => run_env::<F, _>(&mut cx, &|| dasp_envelope::detect::Peak::positive_half_wave(), &frames, &sched, constant, via),
         2 => run_env::<F, _>(&mut cx, &|| dasp_envelope::detect::Peak::negative_half_wave(), &frames, &sched, constant, via),
+        // RMS windows are handed over at a rotation derived from the case (zeroed, but not
+        // necessarily starting at physical slot 0)
         3 => run_env::<F, _>(&mut cx, &|| Rms::<F, Vec<F::Float>>::new(Fixed::from(vec![<F::Float as Frame>::EQUILIBRIUM; 1])), &frames, &sched, false, via),
-        4 => run_env::<F, _>(&mut cx, &|| Rms::<F, Vec<F::Float>>::new(Fixed::from(vec![<F::Float as Frame>::EQUILIBRIUM; 4])), &frames, &sched, false, via),
-        _ => run_env::<F, _>(&mut cx, &|| Rms::<F, Vec<F::Float>>::new(Fixed::from(vec![<F::Float as Frame>::EQUILIBRIUM; 64])), &frames, &sched, false, via),
+        4 => run_env::<F, _>(&mut cx, &|| Rms::<F, Vec<F::Float>>::new(Fixed::from_raw_parts((n + which) % 4, vec![<F::Float as Frame>::EQUILIBRIUM; 4])), &frames, &sched, false, via),
+        _ => run_env::<F, _>(&mut cx, &|| Rms::<F, Vec<F::Float>>::new(Fixed::from_raw_parts((n + 7 * which) % 64, vec![<F::Float as Frame>::EQUILIBRIUM; 64])), &frames, &sched, false, via),
     }));
     if let Err(m) = r {
         let (label, case) = (cx.label.clone(), cx.case.clone());
